@@ -72,12 +72,12 @@ def run(ck):
     quiet_logging()
     rng = ck.rng
     thorough = ck.tier == "thorough"
-    N = 400 if thorough else 60
+    N = ck.n(60, 400)
     np.seterr(all="ignore")
 
     # ------------------------------------------------------------------ 1. translator validation
     cases = []
-    for _ in range(40 if thorough else 12):
+    for _ in range(ck.n(12, 40)):
         p, n = rng.uniform(0.001, 0.95), logu(rng, 1e-5, 1e2)
         cases.append(("roq_transform", {"pressure": p, "loading": n}, ab.roq_transform(p, n)))
         cases.append(("bet_transform", {"pressure": p, "loading": n}, ab.bet_transform(p, n)))
